@@ -185,7 +185,7 @@ for _v, _m in _ASSIGN_FALL:
                  f"self.op is {_v} && {_both} ==> (match op_{_m}(cell_content({L}->Ok_0), {R}->Ok_0) {{ "
                  f"Ok(v) => r == {OKV}(v), Err(e) => r is Err }})"))
 unit(id="binop.exec", src=BINOP, path=[("impl", "Exec for BinOperation"), ("fn", "exec")],
-     impl="BinOperation", stubs=["and.exec", "or.exec"], fragments=["opstubs"],
+     impl="BinOperation", stubs=["and.exec", "or.exec"], fragments=["opspecs", "opstubs"],
      rewrites=[("|_, b| b", "|_a, b| b")],
      requires=[f"(self.op is And || self.op is Or) && {L} is Ok ==> {L}->Ok_0 is Bool"],
      ensures=_ens)
@@ -195,7 +195,7 @@ UNOP = "src/instruction/unary_operation.rs"
 E = f"eval_res(self.instruction, {S0})"
 E_ST = f"eval_st(self.instruction, {S0})"
 unit(id="unop.exec", src=UNOP, path=[("impl", "Exec for UnaryOperation"), ("fn", "exec")],
-     impl="UnaryOperation", fragments=["unstubs"],
+     impl="UnaryOperation", fragments=["opspecs", "unstubs"],
      requires=[
          "!(self.op is All) && !(self.op is Any) && !(self.op is BitAnd) && !(self.op is BitOr)",
          f"self.op is FunctionCall && {E} is Ok ==> {E}->Ok_0 is Function",
@@ -328,3 +328,258 @@ unit(id="match.exec", src=CF + "match.rs", path=[("impl", "Exec for Match"), ("f
          ("match.exec.first_covering_arm_top_to_bottom", ["C07", "C12"],
           f"{M} is Ok ==> r == match_res(self.arms@, {M}->Ok_0, {M_ST}, 0) && {S9} == match_st(self.arms@, {M}->Ok_0, {M_ST}, 0)"),
      ])
+
+# ---------------------------------------------------------------- C09 indexing / len ------
+unit(id="stdlib.len", src="src/stdlib.rs", path=[("fn", "len")], mod="stdlib_len",
+     requires=["variable is Array || variable is String"],
+     ensures=[
+         ("stdlib.len.counts_elements_or_scalar_values", ["C09"], "r == spec_len(*variable)"),
+     ])
+_N = "(spec_len(variable) as int)"
+_I = "(index->Int_0 as int)"
+_INR = f"(-({_N}) <= {_I} && {_I} < {_N})"
+_POS = f"(if {_I} >= 0 {{ {_I} }} else {{ {_N} + {_I} }})"
+unit(id="at.exec", src="src/instruction/at.rs", path=[("fn", "exec")], mod="at",
+     stubs=["stdlib.len"], extra="use stdlib_len::len;\n",
+     requires=["variable is Array || variable is String", "index is Int", "spec_len(variable) <= isize::MAX as nat"],
+     ensures=[
+         ("at.exec.in_range_ok", ["C09"], f"{_INR} ==> r is Ok"),
+         ("at.exec.out_of_range_error", ["C09"], f"!{_INR} ==> r is Err && r->Err_0 is IndexOutOfBounds"),
+         ("at.exec.array_element", ["C09"],
+          f"{_INR} && variable is Array ==> r == Ok::<Variable, ExecError>(variable->Array_0.elems@[{_POS}])"),
+         # the VALUE of the string arm goes through an un-annotated closure (`|ch| ch.to_string().into()`),
+         # which has no callable spec in Verus: Ok-ness/position is proved above, the value is K-bounded
+         # (k.c09_at_exec_string_multibyte) and probed
+     ])
+
+# ---------------------------------------------------------------- C04 recreate family -----
+RS0 = "old(local_variables).st@"
+RS9 = "final(local_variables).st@"
+for _m, _dec in (("and", "false"), ("or", "true")):
+    _nd = "true" if _dec == "false" else "false"
+    unit(id=f"{_m}.create_from_instructions", src=LOGIC, path=[("mod", _m), ("fn", "create_from_instructions")], mod=_m,
+         ensures=[
+             (f"{_m}.fold.deciding_constant_drops_rhs", ["C04", "C07"],
+              f"lhs == Instruction::Variable(Variable::Bool({_dec})) ==> r == Instruction::Variable(Variable::Bool({_dec}))"),
+             (f"{_m}.fold.non_deciding_constant_yields_rhs_untouched", ["C04", "C07"],
+              f"lhs == Instruction::Variable(Variable::Bool({_nd})) ==> r == rhs"),
+             (f"{_m}.fold.non_constant_rebuilt_in_place", ["C04"],
+              f"!(lhs is Variable) ==> r == Instruction::BinOperation(Arc::new(BinOperation {{ lhs, rhs, op: BinOperator::{_m.capitalize()} }}))"),
+         ])
+    unit(id=f"{_m}.recreate", src=LOGIC, path=[("mod", _m), ("fn", "recreate")], mod=_m,
+         ensures=[
+             (f"{_m}.recreate.deciding_constant_drops_rhs", ["C04", "C07"],
+              f"lhs == Instruction::Variable(Variable::Bool({_dec})) ==> "
+              f"r == Ok::<Instruction, ExecError>(Instruction::Variable(Variable::Bool({_dec}))) && {RS9} == {RS0}"),
+             (f"{_m}.recreate.non_deciding_constant_yields_recreated_rhs", ["C04", "C07"],
+              f"lhs == Instruction::Variable(Variable::Bool({_nd})) ==> r == rec_res(*rhs, {RS0}) && {RS9} == rec_st(*rhs, {RS0})"),
+             (f"{_m}.recreate.non_constant_rebuilt_in_place", ["C04"],
+              f"!(lhs is Variable) ==> (match rec_res(*rhs, {RS0}) {{ "
+              f"Ok(rr) => r == Ok::<Instruction, ExecError>(Instruction::BinOperation(Arc::new(BinOperation {{ lhs, rhs: rr, op: BinOperator::{_m.capitalize()} }}))), "
+              f"Err(e) => r == Err::<Instruction, ExecError>(e) }})"),
+         ])
+
+unit(id="iws.recreate", src=INS, path=[("impl", "InstructionWithStr"), ("fn", "recreate")], impl="InstructionWithStr",
+     ensures=[
+         ("iws.recreate.delegates", ["C04"],
+          f"(match rec_res(self.instruction, {RS0}) {{ Ok(i) => r is Ok && r->Ok_0.instruction == i && r->Ok_0.str == self.str, "
+          f"Err(e) => r is Err && r->Err_0 == e }}) && {RS9} == rec_st(self.instruction, {RS0})"),
+     ])
+RC = f"rec_res(self.condition.instruction, {RS0})"
+RC_ST = f"rec_st(self.condition.instruction, {RS0})"
+unit(id="ifelse.recreate", src=CF + "if_else.rs", path=[("impl", "Recreate for IfElse"), ("fn", "recreate")], impl="IfElse",
+     stubs=["iws.recreate"],
+     ensures=[
+         ("ifelse.recreate.condition_error_stops", ["C04"], f"{RC} is Err ==> r == Err::<Instruction, ExecError>({RC}->Err_0)"),
+         ("ifelse.recreate.constant_true_keeps_first_branch_only", ["C04"],
+          f"{RC} == Ok::<Instruction, ExecError>(Instruction::Variable(Variable::Bool(true))) ==> "
+          f"r == rec_res(self.if_true.instruction, {RC_ST}) && {RS9} == rec_st(self.if_true.instruction, {RC_ST})"),
+         ("ifelse.recreate.constant_false_keeps_second_branch_only", ["C04"],
+          f"{RC} == Ok::<Instruction, ExecError>(Instruction::Variable(Variable::Bool(false))) ==> "
+          f"r == rec_res(self.if_false.instruction, {RC_ST}) && {RS9} == rec_st(self.if_false.instruction, {RC_ST})"),
+         ("ifelse.recreate.non_constant_keeps_both_branches", ["C04"],
+          f"{RC} is Ok && !({RC}->Ok_0 is Variable && {RC}->Ok_0->Variable_0 is Bool) ==> "
+          f"(match rec_res(self.if_true.instruction, {RC_ST}) {{ Err(e) => r == Err::<Instruction, ExecError>(e), "
+          f"Ok(t) => (match rec_res(self.if_false.instruction, rec_st(self.if_true.instruction, {RC_ST})) {{ "
+          f"Err(e) => r == Err::<Instruction, ExecError>(e), "
+          f"Ok(f) => r is Ok && r->Ok_0 is IfElse && r->Ok_0->IfElse_0.condition.instruction == {RC}->Ok_0 "
+          f"&& r->Ok_0->IfElse_0.if_true.instruction == t && r->Ok_0->IfElse_0.if_false.instruction == f }}) }})"),
+     ])
+
+RL = f"rec_res(self.lhs, {RS0})"
+RL_ST = f"rec_st(self.lhs, {RS0})"
+RR = f"rec_res(self.rhs, {RL_ST})"
+RR_ST = f"rec_st(self.rhs, {RL_ST})"
+OKI = "Ok::<Instruction, ExecError>"
+_rens = [
+    ("binop.recreate.lhs_error_stops", ["C04"], f"{RL} is Err ==> r == Err::<Instruction, ExecError>({RL}->Err_0)"),
+    ("binop.recreate.rhs_error_stops", ["C04"],
+     f"{_strict} && {RL} is Ok && {RR} is Err ==> r == Err::<Instruction, ExecError>({RR}->Err_0)"),
+]
+_rboth = f"{RL} is Ok && {RR} is Ok"
+for _v, _m in _PURE:
+    _rens.append((f"binop.recreate.dispatch_{_m}", ["C04"] + (["C08"] if _v in _C08OPS else []),
+                  f"self.op is {_v} && {_rboth} ==> r == {OKI}({_m}::folded({RL}->Ok_0, {RR}->Ok_0))"))
+for _v, _m in (("Divide", "divide"), ("Modulo", "modulo"), ("LShift", "lshift"), ("RShift", "rshift"), ("At", "at")):
+    _rens.append((f"binop.recreate.dispatch_{_m}", ["C04"] + (["C08"] if _v in _C08OPS else ["C09"]),
+                  f"self.op is {_v} && {_rboth} ==> r == {_m}::folded({RL}->Ok_0, {RR}->Ok_0)"))
+_notfolded = ["Pow", "Filter", "Map", "FunctionCall", "Partition", "Assign", "AssignAdd", "AssignSubtract",
+              "AssignMultiply", "AssignDivide", "AssignModulo", "AssignLShift", "AssignRShift", "AssignBitwiseAnd",
+              "AssignBitwiseOr", "AssignXor", "AssignPow"]
+_rens.append(("binop.recreate.other_operators_rebuilt_in_place", ["C04"],
+              "(" + " || ".join(f"self.op is {v}" for v in _notfolded) + f") && {_rboth} ==> "
+              f"r == {OKI}(Instruction::BinOperation(Arc::new(BinOperation {{ lhs: {RL}->Ok_0, rhs: {RR}->Ok_0, op: self.op }})))"))
+unit(id="binop.recreate", src=BINOP, path=[("impl", "Recreate for BinOperation"), ("fn", "recreate")], impl="BinOperation",
+     stubs=["and.recreate", "or.recreate", "and.create_from_instructions", "or.create_from_instructions"],
+     fragments=["opspecs", "opstubs"], ensures=_rens)
+RE = f"rec_res(self.instruction, {RS0})"
+unit(id="unop.recreate", src=UNOP, path=[("impl", "Recreate for UnaryOperation"), ("fn", "recreate")], impl="UnaryOperation",
+     fragments=["opspecs", "unstubs"],
+     sig_rewrites=[("super::Instruction", "Instruction"), ("crate::ExecError", "ExecError")],
+     ensures=[
+         ("unop.recreate.operand_error_stops", ["C04"], f"{RE} is Err ==> r == Err::<Instruction, ExecError>({RE}->Err_0)"),
+         ("unop.recreate.dispatch_not", ["C04", "C08"], f"self.op is Not && {RE} is Ok ==> r == {OKI}(not::folded({RE}->Ok_0))"),
+         ("unop.recreate.dispatch_unary_minus", ["C04", "C08"],
+          f"self.op is UnaryMinus && {RE} is Ok ==> r == {OKI}(unary_minus::folded({RE}->Ok_0))"),
+         ("unop.recreate.other_operators_rebuilt_in_place", ["C04"],
+          f"!(self.op is Not) && !(self.op is UnaryMinus) && {RE} is Ok ==> "
+          f"r == {OKI}(Instruction::UnaryOperation(Arc::new(UnaryOperation {{ instruction: {RE}->Ok_0, op: self.op }})))"),
+     ])
+
+# ---------------------------------------------------------------- fold functions ----------
+unit(id="with_exec", src=BINOP, path=[("fn", "create_from_instructions_with_exec")],
+     requires=["lhs is Variable && rhs is Variable ==> call_requires(exec, (lhs->Variable_0, rhs->Variable_0))"],
+     ensures=[
+         ("with_exec.constants_folded_by_exec", ["C04", "C08"],
+          "lhs is Variable && rhs is Variable ==> r is Variable && call_ensures(exec, (lhs->Variable_0, rhs->Variable_0), r->Variable_0)"),
+         ("with_exec.non_constant_rebuilt_in_place", ["C04", "C08"],
+          "!(lhs is Variable && rhs is Variable) ==> r == Instruction::BinOperation(Arc::new(BinOperation { lhs, rhs, op }))"),
+     ])
+# purity contracts of the leaf operator functions, used only as assumed callee contracts of the fold units
+_SRC_OF = {"add": (MATH + "add.rs", [("fn", "exec")], None), "subtract": (MATH + "subtract.rs", [("fn", "exec")], None),
+           "multiply": (MATH + "multiply.rs", [("fn", "exec")], None),
+           "divide": (MATH + "divide.rs", [("fn", "exec")], None), "modulo": (MATH + "modulo.rs", [("fn", "exec")], None),
+           "equal": (BINOP, [("mod", "equal"), ("fn", "exec")], None),
+           "not_equal": (BINOP, [("mod", "not_equal"), ("fn", "exec")], None)}
+for _m, _col in (("greater", "ord"), ("greater_equal", "ord"), ("lower", "ord"), ("lower_equal", "ord")):
+    _SRC_OF[_m] = ("src/instruction/bin_op/math.rs", [("mod", "ord"), ("fn", "exec")], dict(column="ord", value=_m))
+for _m in ("bitwise_and", "bitwise_or", "xor"):
+    _SRC_OF[_m] = ("src/instruction/bin_op/bitwise.rs", [("mod", "bitwise"), ("fn", "exec")], dict(column="bitwise", value=_m))
+for _m in ("lshift", "rshift"):
+    _SRC_OF[_m] = ("src/instruction/bin_op/shift.rs", [("mod", "shift"), ("fn", "exec")], dict(column="shift", value=_m))
+_OPNAME = dict(_PURE + _FALL)
+_OPNAME = {m: v for v, m in _OPNAME.items()}
+for _m, (_src, _path, _dup) in _SRC_OF.items():
+    _a, _b = ("dividend", "divisor") if _m in ("divide", "modulo") else ("lhs", "rhs")
+    unit(id=f"{_m}.exec.pure", src=_src, path=_path, mod=_m, duplicate=_dup, stub_only=True,
+         ensures=[(f"{_m}.exec.pure", [], f"r == op_{_m}({_a}, {_b})")])
+for _m in ("add", "subtract", "multiply", "equal", "not_equal", "greater", "greater_equal", "lower", "lower_equal",
+           "bitwise_and", "bitwise_or", "xor"):
+    _src, _path, _dup = _SRC_OF[_m]
+    _cpath = _path[:-1] + [("fn", "create_from_instructions")]
+    _ps = ["C04"] + (["C08"] if _OPNAME[_m] in _C08OPS else ["C19"])
+    unit(id=f"{_m}.create_from_instructions", src=_src, path=_cpath, mod=_m, duplicate=_dup,
+         stubs=[f"{_m}.exec.pure", "with_exec"], fragments=["opspecs"],
+         ensures=[
+             (f"{_m}.fold.constants_equal_exec", _ps,
+              f"lhs is Variable && rhs is Variable ==> r == Instruction::Variable(op_{_m}(lhs->Variable_0, rhs->Variable_0))"),
+             (f"{_m}.fold.non_constant_rebuilt_same_operator", _ps,
+              f"!(lhs is Variable && rhs is Variable) ==> "
+              f"r == Instruction::BinOperation(Arc::new(BinOperation {{ lhs, rhs, op: BinOperator::{_OPNAME[_m]} }}))"),
+         ])
+for _m, _err in (("divide", "ZeroDivision"), ("modulo", "ZeroModulo")):
+    _src, _path, _dup = _SRC_OF[_m]
+    unit(id=f"{_m}.create_from_instructions", src=_src, path=[("fn", "create_from_instructions")], mod=_m,
+         stubs=[f"{_m}.exec.pure"], fragments=["opspecs"],
+         ensures=[
+             (f"{_m}.fold.constants_equal_exec", ["C04", "C08"],
+              f"dividend is Variable && divisor is Variable ==> (match op_{_m}(dividend->Variable_0, divisor->Variable_0) {{ "
+              f"Ok(v) => r == {OKI}(Instruction::Variable(v)), Err(e) => r == Err::<Instruction, ExecError>(e) }})"),
+             (f"{_m}.fold.early_error_only_for_constant_zero_divisor", ["C04", "C08"],
+              f"!(dividend is Variable && divisor is Variable) ==> "
+              f"(r is Err <==> divisor == Instruction::Variable(Variable::Int(0))) && (r is Err ==> r->Err_0 is {_err})"),
+             (f"{_m}.fold.non_constant_rebuilt_same_operator", ["C04", "C08"],
+              f"!(dividend is Variable && divisor is Variable) && divisor != Instruction::Variable(Variable::Int(0)) ==> "
+              f"r == {OKI}(Instruction::BinOperation(Arc::new(BinOperation {{ lhs: dividend, rhs: divisor, op: BinOperator::{_OPNAME[_m]} }})))"),
+         ])
+
+for _m in ("lshift", "rshift"):
+    _src, _path, _dup = _SRC_OF[_m]
+    unit(id=f"{_m}.create_from_instructions", src=_src, path=[("mod", "shift"), ("fn", "create_from_instructions")],
+         mod=_m, duplicate=_dup, stubs=[f"{_m}.exec.pure"], fragments=["opspecs"],
+         ensures=[
+             (f"{_m}.fold.constants_equal_exec", ["C04", "C08"],
+              f"lhs is Variable && rhs is Variable ==> (match op_{_m}(lhs->Variable_0, rhs->Variable_0) {{ "
+              f"Ok(v) => r == {OKI}(Instruction::Variable(v)), Err(e) => r == Err::<Instruction, ExecError>(e) }})"),
+             (f"{_m}.fold.early_error_only_for_constant_out_of_range_shift", ["C04", "C08"],
+              f"!(lhs is Variable && rhs is Variable) ==> "
+              f"(r is Err <==> (rhs is Variable && rhs->Variable_0 is Int && !(0 <= rhs->Variable_0->Int_0 <= 63))) "
+              f"&& (r is Err ==> r->Err_0 is OverflowShift)"),
+             (f"{_m}.fold.non_constant_rebuilt_same_operator", ["C04", "C08"],
+              f"!(lhs is Variable && rhs is Variable) && r is Ok ==> "
+              f"r == {OKI}(Instruction::BinOperation(Arc::new(BinOperation {{ lhs, rhs, op: BinOperator::{_OPNAME[_m]} }})))"),
+         ])
+
+# ---------------------------------------------------------------- array repeat -------------
+AV = f"eval_res(self.value.instruction, {S0})"
+AV_ST = f"eval_st(self.value.instruction, {S0})"
+AL = f"eval_res(self.len.instruction, {AV_ST})"
+AL_ST = f"eval_st(self.len.instruction, {AV_ST})"
+_VAR_REPEAT = ("var!([value; len])", "Variable::Array(Array::new_repeat(value, len as usize).into())")
+unit(id="arrayrepeat.exec", src="src/instruction/array_repeat.rs", path=[("impl", "Exec for ArrayRepeat"), ("fn", "exec")],
+     impl="ArrayRepeat", stubs=["iws.exec"], rewrites=[_VAR_REPEAT],
+     requires=[f"{AV} is Ok && {AL} is Ok ==> {AL}->Ok_0 is Int"],
+     ensures=[
+         ("arrayrepeat.exec.value_first_error_stops", ["C07"], f"{AV} is Err ==> r == {AV} && {S9} == {AV_ST}"),
+         ("arrayrepeat.exec.length_second_once", ["C07"], f"{AV} is Ok ==> {S9} == {AL_ST}"),
+         ("arrayrepeat.exec.length_error_stops", ["C07"], f"{AV} is Ok && {AL} is Err ==> r == {AL}"),
+         ("arrayrepeat.exec.negative_length_error", ["C04"],
+          f"{AV} is Ok && {AL} is Ok && {AL}->Ok_0->Int_0 < 0 ==> r == Err::<Variable, ExecStop>(ExecStop::Error(ExecError::NegativeLength))"),
+         ("arrayrepeat.exec.repeats_value", ["C04"],
+          f"{AV} is Ok && {AL} is Ok && {AL}->Ok_0->Int_0 >= 0 ==> r is Ok && r->Ok_0 is Array "
+          f"&& r->Ok_0->Array_0.elems@.len() == {AL}->Ok_0->Int_0 "
+          f"&& (forall|i: int| 0 <= i < {AL}->Ok_0->Int_0 ==> r->Ok_0->Array_0.elems@[i] == {AV}->Ok_0)"),
+     ])
+_LENC = "len.instruction is Variable && len.instruction->Variable_0 is Int"
+unit(id="arrayrepeat.create_from_instructions", src="src/instruction/array_repeat.rs",
+     path=[("impl", "ArrayRepeat"), ("fn", "create_from_instructions")], impl="ArrayRepeat", rewrites=[_VAR_REPEAT],
+     ensures=[
+         ("arrayrepeat.fold.early_error_only_for_constant_negative_length", ["C04"],
+          f"r is Err <==> ({_LENC} && len.instruction->Variable_0->Int_0 < 0)"),
+         ("arrayrepeat.fold.error_kind", ["C04"], "r is Err ==> r->Err_0 is NegativeLength"),
+         ("arrayrepeat.fold.constants_equal_exec", ["C04"],
+          f"value.instruction is Variable && {_LENC} && len.instruction->Variable_0->Int_0 >= 0 ==> "
+          f"r is Ok && r->Ok_0 is Variable && r->Ok_0->Variable_0 is Array "
+          f"&& r->Ok_0->Variable_0->Array_0.elems@.len() == len.instruction->Variable_0->Int_0 "
+          f"&& (forall|i: int| 0 <= i < len.instruction->Variable_0->Int_0 ==> r->Ok_0->Variable_0->Array_0.elems@[i] == value.instruction->Variable_0)"),
+         ("arrayrepeat.fold.non_constant_rebuilt_in_place", ["C04"],
+          f"r is Ok && !(value.instruction is Variable && {_LENC}) ==> "
+          f"r == {OKI}(Instruction::ArrayRepeat(Arc::new(ArrayRepeat {{ value, len }})))"),
+     ])
+
+# ---------------------------------------------------------------- more C08 leaves in V -----
+unit(id="xor.exec", src="src/instruction/bin_op/bitwise.rs", path=[("mod", "bitwise"), ("fn", "exec")], mod="xor",
+     duplicate=dict(column="bitwise", value="xor"),
+     requires=["(lhs is Int && rhs is Int) || (lhs is Bool && rhs is Bool)"],
+     ensures=[
+         ("xor.exec.int_bitwise", ["C08"], "lhs is Int ==> r == Variable::Int(lhs->Int_0 ^ rhs->Int_0)"),
+         ("xor.exec.bool_logical", ["C08"], "lhs is Bool ==> r == Variable::Bool(lhs->Bool_0 != rhs->Bool_0)"),
+     ])
+unit(id="not.exec", src="src/instruction/prefix_op.rs", path=[("mod", "not"), ("fn", "exec")], mod="not",
+     requires=["variable is Int || variable is Bool"],
+     ensures=[
+         ("not.exec.int_bitwise_complement", ["C08"], "variable is Int ==> r == Variable::Int(!variable->Int_0)"),
+         ("not.exec.bool_negation", ["C08"], "variable is Bool ==> r == Variable::Bool(!variable->Bool_0)"),
+     ])
+for _m, _op in (("greater", ">"), ("greater_equal", ">="), ("lower", "<"), ("lower_equal", "<=")):
+    unit(id=f"{_m}.exec", src="src/instruction/bin_op/math.rs", path=[("mod", "ord"), ("fn", "exec")], mod=_m,
+         duplicate=dict(column="ord", value=_m),
+         requires=["lhs is Int && rhs is Int"],
+         ensures=[
+             (f"{_m}.exec.int_signed_comparison", ["C08"], f"r == Variable::Bool(lhs->Int_0 {_op} rhs->Int_0)"),
+         ])
+
+# ---------------------------------------------------------------- destructuring ----------
+DT = f"eval_res(self.instruction.instruction, {S0})"
+DT_ST = f"eval_st(self.instruction.instruction, {S0})"
+# unary_minus::exec is K-only: Verus rejects unary minus on f64 (the Float arm of the same function)
